@@ -91,7 +91,7 @@ fn c08_pair(ctx: &mut Ctx, pa: &mut BlockHashPositionArray, a: &[u8], b: &[u8]) 
 /// One step of a history on ONE comparison target: load `m` (init_from, or a new object by
 /// From), then observe the string functions of target.block_hash_1()/block_hash_2() against
 /// the DP / naive oracles on the CURRENT hash.
-fn target_history_step(ctx: &mut Ctx, target: &mut FuzzyHashCompareTarget, m: &Model, history: &mut Vec<String>) -> R {
+pub fn target_history_step(ctx: &mut Ctx, target: &mut FuzzyHashCompareTarget, m: &Model, history: &mut Vec<String>) -> R {
     ctx.input();
     let via_from = ctx.rng.chance(1, 5);
     history.push(format!("{}({})", if via_from { "From" } else { "init_from" }, m.text()));
@@ -102,6 +102,9 @@ fn target_history_step(ctx: &mut Ctx, target: &mut FuzzyHashCompareTarget, m: &M
     let mut xs: Vec<Vec<u8>> = vec![m.bh1.clone(), m.bh2.clone(), vec![], gen::mutate_bh(&mut ctx.rng, &m.bh1, 64), gen::mutate_bh(&mut ctx.rng, &m.bh2, 64)];
     let l = gen::bh_len(&mut ctx.rng, 64);
     xs.push(gen::bh_raw(&mut ctx.rng, l));
+    // other hashes to score against: itself, relatives, something unrelated
+    let mut others: Vec<Model> = vec![m.clone(), gen::related_norm(&mut ctx.rng, m, 64), gen::related_norm(&mut ctx.rng, m, 64)];
+    others.push(gen::model_norm(&mut ctx.rng, 64));
     let input = || format!("history of one target object (latest last): {}\ncurrent hash {}", history.join(" ; "), m.text());
     let obs = ctx.nopanic("reused-target-string-functions-never-panic", || {
         if long {
@@ -113,16 +116,42 @@ fn target_history_step(ctx: &mut Ctx, target: &mut FuzzyHashCompareTarget, m: &M
         }
         let (b1, b2) = (target.block_hash_1(), target.block_hash_2());
         let head = (b1.is_valid(), b2.is_valid(), b1.len() as usize, b2.len() as usize, target.is_valid(), target.log_block_size());
+        // validity first (C11), Debug formatting of the object, identity with a fresh target
+        let fresh = FuzzyHashCompareTarget::from(&LongFuzzyHash::of(m));
+        let dbg_ok = !format!("{:?}", target).is_empty() && format!("{:?}", target) == format!("{:?}", fresh);
+        let same = (target.full_eq(&fresh), dbg_ok);
+        if !(head.0 && head.1 && head.4) {
+            // the checked string functions assert validity: report the invalid object, not their panic
+            return (head, Vec::new(), same, Vec::new());
+        }
         let mut rows = Vec::new();
         for x in &xs {
             rows.push((b1.edit_distance(x), b2.edit_distance(x), b1.has_common_substring(x), b2.has_common_substring(x), b1.is_equiv(x), b2.is_equiv(x)));
         }
-        (head, rows)
+        // scores and candidate answers: reused == fresh == reference
+        let mut scores = Vec::new();
+        for o in &others {
+            let oh = LongFuzzyHash::of(o);
+            scores.push((target.compare(&oh), fresh.compare(&oh), target.is_comparison_candidate(&oh), fresh.is_comparison_candidate(&oh), target.is_equiv(&oh)));
+        }
+        (head, rows, same, scores)
     }, input)?;
     let head_ok = obs.0 == (true, true, m.bh1.len(), m.bh2.len(), true, m.log_bs);
     ctx.check("reused-target-position-arrays", head_ok, || {
         format!("{}\nreal code: (block_hash_1().is_valid, block_hash_2().is_valid, len 1, len 2, target.is_valid, log_block_size) = {:?}\noracle: (true, true, {}, {}, true, {})", input(), obs.0, m.bh1.len(), m.bh2.len(), m.log_bs)
     })?;
+    ctx.check("reused-target-identical-to-fresh", obs.2 == (true, true), || {
+        format!("{}\nreal code: full_eq(fresh target) = {}, Debug text equal to the fresh target's = {}\noracle: a re-initialised target is indistinguishable from a fresh one", input(), obs.2 .0, obs.2 .1)
+    })?;
+    for (o, sc) in others.iter().zip(&obs.3) {
+        let want = (oracle::compare(m, o), oracle::compare(m, o), oracle::is_candidate(m, o), oracle::is_candidate(m, o), m == o);
+        ctx.check("reused-target-score-equals-fresh-and-reference", *sc == want, || {
+            format!(
+                "{}\nother hash {}\nreal code: (reused.compare, fresh.compare, reused.is_comparison_candidate, fresh.is_comparison_candidate, reused.is_equiv) = {:?}\noracle (fuzzy_compare / shared 7-gram windows / same hash): {:?}",
+                input(), o.text(), sc, want
+            )
+        })?;
+    }
     for (x, row) in xs.iter().zip(&obs.1) {
         let want = (oracle::edit_distance(&m.bh1, x), oracle::edit_distance(&m.bh2, x), oracle::has7(&m.bh1, x), oracle::has7(&m.bh2, x), m.bh1 == *x, m.bh2 == *x);
         ctx.check("reused-target-edit-distance-and-substring", *row == want, || {
@@ -137,7 +166,7 @@ fn target_history_step(ctx: &mut Ctx, target: &mut FuzzyHashCompareTarget, m: &M
 
 /// Next hash of a target history: empty block hash 1 with non-empty block hash 2, empty/empty,
 /// long/long, then something different.
-fn history_model(ctx: &mut Ctx, step: u32) -> Model {
+pub fn history_model(ctx: &mut Ctx, step: u32) -> Model {
     match step % 6 {
         0 => {
             // like the parsed text "3::ABCDEFGHIJKL"
@@ -526,7 +555,15 @@ pub fn c02(ctx: &mut Ctx) -> R {
     ctx.check("string-compare-error-side", matches!(&e, Err(x) if x.side() == ssdeep::ParseErrorSide::Left) && matches!(&f, Err(x) if x.side() == ssdeep::ParseErrorSide::Right), || {
         format!("real code: compare(\"x\",\"3::\") = {:?}, compare(\"3::\",\"3:::\") = {:?}\noracle: a parse error naming the left / right operand", e, f)
     })?;
+    // a second target object that lives through a history of re-initialisations
+    let mut htarget = FuzzyHashCompareTarget::new();
+    let mut history: Vec<String> = Vec::new();
+    let mut step = 0u32;
     while ctx.alive() {
+        let which = if ctx.rng.chance(1, 3) { ctx.rng.below(6) as u32 } else { step };
+        step += 1;
+        let hm = history_model(ctx, which);
+        target_history_step(ctx, &mut htarget, &hm, &mut history)?;
         let cap2 = if ctx.rng.chance(1, 2) { 32 } else { 64 };
         let a = gen::model_norm(&mut ctx.rng, cap2);
         let b = if ctx.rng.chance(1, 8) { gen::model_norm(&mut ctx.rng, cap2) } else { gen::related_norm(&mut ctx.rng, &a, cap2) };
